@@ -212,16 +212,27 @@ def job_dedrift(T, Fc, asc, geom, sign, via_metadata, gapped=False):
     return recs
 
 
-def job_integrate(T, Fc, asc):
+def job_integrate(T, Fc, asc, derived=None):
+    """derived='slice': the integrated frame is itself a slice (channels 1..Fc of an Fc+2 channel parent), so its own axes
+    differ from whatever the parent recorded"""
     recs = []
-    tag = f"C17:integrate:{(T, Fc, asc)}"
+    tag = f"C17:integrate:{(T, Fc, asc)}" + (f":of-{derived}" if derived else '')
     df, dt, fch1, pre = geom_syms()
     t0 = Sym(z3.Real('t_start'))
-    D = sym_data(T, Fc)
+    if derived == 'slice':
+        DP = sym_data(T, Fc + 2)
+        D = DP[:, 1:Fc + 1].copy()
+    else:
+        D = sym_data(T, Fc)
 
     def run():
-        fr = make_frame(T, Fc, asc, df, dt, fch1, t_start=t0, source_name='SRC_C')
-        fr.data = D.copy()
+        if derived == 'slice':
+            parent = make_frame(T, Fc + 2, asc, df, dt, fch1, t_start=t0, source_name='SRC_C')
+            parent.data = DP.copy()
+            fr = parent.get_slice(1, Fc + 1)
+        else:
+            fr = make_frame(T, Fc, asc, df, dt, fch1, t_start=t0, source_name='SRC_C')
+            fr.data = D.copy()
         out = {}
         for axis in ('t', 'f', 0, 1):
             for mode in ('mean', 'sum'):
@@ -261,6 +272,11 @@ def job_integrate(T, Fc, asc):
         vec('timeseries', list(tsr.data[:, 0]), [c / Fc for c in rowsum])
         dis += [lift(a) != lift(b) for a, b in zip(sp.fs, fr.fs)]
         dis += [lift(a) != lift(b) for a, b in zip(tsr.ts, fr.ts)]
+        if derived == 'slice':
+            # the slice's own channel centres, from the parent geometry: parent channel 1+j
+            # (data columns are always in increasing frequency; a descending parent's fch1 is its last column)
+            fmin_p = lift(fch1) if asc else lift(fch1) - (Fc + 1) * lift(df)
+            dis += [lift(sp.fs[j]) != fmin_p + (1 + j) * lift(df) for j in range(Fc)]
         dis += [lift(sp.df) != lift(fr.df), lift(tsr.dt) != lift(fr.dt), lift(sp.dt) != lift(fr.dt) * T, lift(tsr.df) != lift(fr.df) * Fc]
     for w in (sp, tsr):
         d2, p2 = common_claims(w, (asc, fr.df, fr.dt, t0, 'SRC_C'))
@@ -268,9 +284,9 @@ def job_integrate(T, Fc, asc):
         py += p2
     r, m = core.check(pre + leaf.side + [z3.Or(*dis)], timeout_ms=120000)
     recs.append(q(tag, r))
-    pl = dict(fn='integrate', T=T, Fc=Fc, asc=asc)
+    pl = dict(fn='integrate', T=T, Fc=Fc, asc=asc, derived=derived)
     if r == 'sat':
-        recs.append(cex('C17:integrate', 'integration result / wrapper axes differ from per-column / per-row mean or sum with the parent axes', pl, name=tag))
+        recs.append(cex('C17:integrate' + (f':of-{derived}' if derived else ''), 'integration result / wrapper axes differ from per-column / per-row mean or sum with the parent axes', pl, name=tag))
     r0, _ = core.check([RV(int(not py)) != 1])
     recs.append(q(tag + ':attrs', r0, trivial=True, detail=str(py)))
     if py:
@@ -438,9 +454,18 @@ def replay_dedrift(p):
 def replay_integrate(p):
     import setigen as stg
     rng = np.random.default_rng(0)
-    fr = _parent(p, rng)
+    if p.get('derived') == 'slice':
+        q_ = dict(p, Fc=p['Fc'] + 2)
+        parent = _parent(q_, rng)
+        fr = parent.get_slice(1, p['Fc'] + 1)
+        want_fs = parent.fs[1:p['Fc'] + 1]
+    else:
+        fr = _parent(p, rng)
+        want_fs = fr.fs.copy()
     D = fr.data.copy()
     bad = []
+    if not np.allclose(stg.spectrum(fr).fs, want_fs, rtol=0, atol=1e-6):
+        bad.append(f"spectrum frequencies {stg.spectrum(fr).fs[:2]}.., the integrated frame's own are {want_fs[:2]}..")
     for axis, ax in (('t', 0), ('f', 1), (0, 0), (1, 1)):
         if not np.allclose(stg.integrate(fr, axis=axis, mode='mean'), D.mean(axis=ax)) or not np.allclose(stg.integrate(fr, axis=axis, mode='sum'), D.sum(axis=ax)):
             bad.append(f'integrate axis={axis}')
@@ -468,6 +493,7 @@ def main():
         for asc in (False, True):
             jobs.append(('job_slice', (T, Fc, asc, None)))
             jobs.append(('job_integrate', (T, Fc, asc)))
+            jobs.append(('job_integrate', (T, Fc, asc, 'slice')))
             for geom in (('g1',) if not ck.thorough else ('g1', 'g2')):
                 for sign in (1, -1):
                     jobs.append(('job_dedrift', (T, Fc, asc, geom, sign, False)))
